@@ -92,7 +92,7 @@ def callee_name(e):
 
 
 PTY = {"q": "qubit", "a": f"array[qubit, {ARRN}]", "b": "bool", "t": "tuple[bool, bool]"}
-RTY = {"b": "bool", "n": "None"}
+RTY = {"b": "bool", "n": "None", "i": "int"}
 
 
 class Printer:
@@ -108,18 +108,23 @@ class Printer:
         if t == "l":
             return "True"
         if t == "p":
-            _, q, s = e
+            q, s = e[1], e[2]
             if q and not s:
                 st["q"] += 1
                 assert st["q"] <= QPOOL and True
                 return f"q{st['q'] - 1}"
+            idx = e[3] if len(e) > 3 and e[3] else None
             if q and s:
                 assert not st["whole"]
                 st["elem"] += 1
                 assert st["elem"] <= ARRN
+                if idx is not None:
+                    assert not st.get("dyn")      # at most one dynamically indexed element per expression
+                    st["dyn"] = True
+                    return f"qs[{self.expr(idx, st)}]"
                 return f"qs[{st['elem'] - 1}]"
             if s:
-                return "xs[0]"
+                return f"xs[{self.expr(idx, st)}]" if idx is not None else "xs[0]"
             return "b"
         if t == "pa":
             assert st["elem"] == 0 and not st["whole"]
@@ -167,6 +172,9 @@ class Printer:
             elif s[0] == "a":
                 self.nassign += 1
                 out.append(f"{pad}v{self.nassign} = {self.expr(s[1], self.fresh())}")
+            elif s[0] == "at":
+                st = self.fresh()
+                out.append(f"{pad}xs[{self.expr(s[1], st)}] = {self.expr(s[2], st)}")
             elif s[0] == "i":
                 out.append(f"{pad}if {self.expr(s[1], self.fresh())}:")
                 out += self.stmts(s[2], ind + 1) or [pad + "    pass"]
@@ -186,7 +194,10 @@ class Printer:
                     elif s[2] and "c" in s[1] and j == s[1].index("c"):
                         self.nsub += 1
                         assert self.nsub <= KSUB
-                        items.append(f"control(ks[{self.nsub - 1}])")
+                        if isinstance(s[2], tuple):
+                            items.append(f"control(ks[{self.expr(s[2], self.fresh())}])")
+                        else:
+                            items.append(f"control(ks[{self.nsub - 1}])")
                     else:
                         self.nctrl += 1
                         assert self.nctrl <= KPOOL
@@ -232,9 +243,11 @@ def sx_expr(e):
     if t == "l":
         return "l"
     if t == "p":
-        return f"(p {e[1]} {e[2]})"
+        if len(e) > 3 and e[3]:
+            return f"(p {e[1]} {sx_expr(e[3])})"
+        return f"(p {e[1]} l)" if e[2] else f"(p {e[1]})"
     if t == "pa":
-        return "(p 1 0)"
+        return "(p 1)"
     if t == "c":
         return f"(c {e[1]} 0 {' '.join(sx_expr(a) for a in e[2])})"
     if t == "x":
@@ -250,14 +263,20 @@ def sx_block(b):
         if s[0] == "e":
             out.append(f"(e {sx_expr(s[1])})")
         elif s[0] == "a":
-            out.append(f"(a {sx_expr(s[1])})")
+            out.append(f"(a (p 0) {sx_expr(s[1])})")
+        elif s[0] == "at":
+            out.append(f"(a (p 0 {sx_expr(s[1])}) {sx_expr(s[2])})")
         elif s[0] == "i":
             out.append(f"(i {sx_expr(s[1])} ({sx_block(s[2])}) ({sx_block(s[3])}))")
         elif s[0] == "w":
             out.append(f"(w {sx_expr(s[1])} ({sx_block(s[2])}))")
         else:
             first = s[1].index("c") if "c" in s[1] else -1
-            cargs = " ".join(f"(p 1 {int(bool(s[2]) and j == first)})" for j, m in enumerate(s[1]) if m == "c")
+            def carg(j):
+                if s[2] and j == first:
+                    return f"(p 1 {sx_expr(s[2])})" if isinstance(s[2], tuple) else "(p 1 l)"
+                return "(p 1)"
+            cargs = " ".join(carg(j) for j, m in enumerate(s[1]) if m == "c")
             out.append(f"(wb {flags_of_mods(s[1])} ({cargs}) ({sx_block(s[3])}))")
     return " ".join(out)
 
@@ -311,8 +330,11 @@ def oracle(prog):
         elif t == "t":
             for a in e[1]:
                 ex(a, req)
-        elif t == "p" and e[2] and "D" in req:
-            reasons.add("subscript")
+        elif t == "p":
+            if e[2] and "D" in req:
+                reasons.add("subscript")
+            if len(e) > 3 and e[3]:
+                ex(e[3], req)      # a call in the index expression of a subscripted place is a call like any other
         # "x": barrier / state_result excepted
 
     def bl(b, req):
@@ -323,6 +345,11 @@ def oracle(prog):
                 if "D" in req:
                     reasons.add("assign")
                 ex(s[1], req)
+            elif s[0] == "at":
+                if "D" in req:
+                    reasons.add("assign")
+                    reasons.add("subscript")
+                ex(s[1], req); ex(s[2], req)
             elif s[0] == "i":
                 ex(s[1], req); bl(s[2], req); bl(s[3], req)
             elif s[0] == "w":
@@ -332,6 +359,8 @@ def oracle(prog):
             else:
                 if s[2] and "c" in s[1] and "D" in req:
                     reasons.add("subscript")  # control(ks[i]) where dagger is required
+                if isinstance(s[2], tuple):
+                    ex(s[2], req)             # control(ks[f(q)]): evaluated in the enclosing context
                 bl(s[3], req | _letters(flags_of_mods(s[1])))
 
     bl(prog["body"], oracle_flags(prog))
@@ -429,7 +458,7 @@ LIT = ("l",)
 MIXES = {
     "q": [Q], "b": [B], "qb": [Q, B], "bq": [B, Q], "a": [PA], "s": [QS], "none": [],
 }
-POSITIONS = ["stmt", "nested1", "nested2", "if", "while", "assign"]
+POSITIONS = ["stmt", "nested1", "nested2", "if", "while", "assign", "index_arg", "index_cond", "index_target", "index_nested"]
 
 
 def place_call(pos, inner, outer_flags):
@@ -446,6 +475,15 @@ def place_call(pos, inner, outer_flags):
         return [("w", inner, [])]
     if pos == "assign":
         return [("a", inner)]
+    # the call sits in the index expression of a subscripted place (audit finding F2); `inner` returns int here
+    if pos == "index_arg":      # qs[f(..)] passed as qubit argument to a callee that has every flag
+        return [("e", call(outer_flags, [("p", 1, 1, inner)], "n"))]
+    if pos == "index_cond":     # if xs[f(..)]:
+        return [("i", ("p", 0, 1, inner), [], [])]
+    if pos == "index_target":   # xs[f(..)] = True
+        return [("at", inner, LIT)]
+    if pos == "index_nested":   # xs[...] as classical argument after a qubit argument
+        return [("e", call(outer_flags, [Q, ("p", 0, 1, inner)], "n"))]
     raise AssertionError(pos)
 
 
@@ -467,7 +505,7 @@ def grid():
             for mix in MIXES.values():
                 for pos in POSITIONS:
                     p = dict(cx)
-                    p["body"] = place_call(pos, call(g, mix), 7)
+                    p["body"] = place_call(pos, call(g, mix, "i" if pos.startswith("index") else "b"), 7)
                     yield p
 
 
@@ -476,9 +514,13 @@ def nested_grid():
     for cx in contexts():
         for mods in (["d"], ["c"], ["p"], ["c", "p"]):
             for g in range(8):
-                for pos in ("stmt", "if", "nested2", "while"):
+                for pos in ("stmt", "if", "nested2", "while", "index_arg", "index_cond"):
                     p = dict(cx)
-                    p["body"] = [("wb", mods, 0, place_call(pos, call(g, [Q]), 7))]
+                    p["body"] = [("wb", mods, 0, place_call(pos, call(g, [Q], "i" if pos.startswith("index") else "b"), 7))]
+                    yield p
+                if "c" in mods:  # control(ks[f(q)]): the index call is evaluated in the enclosing context
+                    p = dict(cx)
+                    p["body"] = [("wb", mods, call(g, [Q], "i"), [("e", call(7, [Q], "n"))])]
                     yield p
 
 
@@ -498,7 +540,13 @@ def rand_expr(rng, depth, budget, want_bool=True):
             args.append(Q)
         elif k < 0.45 and not budget["whole"] and budget["elem"] < ARRN:
             budget["elem"] += 1
-            args.append(QS)
+            if rng.random() < 0.35 and not budget.get("dyn") and depth >= 1:
+                budget["dyn"] = True
+                inner = rand_expr(rng, depth - 1, budget)
+                inner = ("c", inner[1], inner[2], "i", False) if inner[0] == "c" else call(rng.choice([0, 7]), [], "i")
+                args.append(("p", 1, 1, inner))
+            else:
+                args.append(QS)
         elif k < 0.52 and not budget["whole"] and budget["elem"] == 0:
             budget["whole"] = True
             args.append(PA)
@@ -539,8 +587,12 @@ def rand_stmt(rng, depth, req_hint):
         if e[0] != "c":
             e = call(rng.choice([req_hint, 7, 0]), [e, Q] if bud["q"] < QPOOL else [e], "n")
         return ("e", e)
-    if r < 0.62:
+    if r < 0.56:
         return ("a", rand_expr(rng, 2, bud))
+    if r < 0.62:
+        idx = rand_expr(rng, 1, bud)
+        idx = ("c", idx[1], idx[2], "i", False) if idx[0] == "c" else call(rng.choice([0, 3, 7]), [Q], "i")
+        return ("at", idx, rng.choice([LIT, B]))
     if r < 0.74:
         mods = rng.choice([["d"], ["c"], ["p"], ["c", "p"], ["d", "c"], ["p", "d"], ["d", "d"], ["c", "c"], ["d", "p", "c"]])
         return ("wb", mods, 0, rand_block(rng, depth - 1, req_hint | flags_of_mods(mods), 2))
@@ -570,8 +622,8 @@ def bias_flags(prog, body, rng):
             return ("c", g, [ex(a, allow_bad) for a in e[2]], e[3], e[4])
         if t == "t":
             return ("t", [ex(a, allow_bad) for a in e[1]])
-        if t == "x":
-            return e
+        if t == "p" and len(e) > 3 and e[3]:
+            return ("p", e[1], e[2], ex(e[3], allow_bad))
         return e
 
     ab = [keep_bad]
@@ -581,6 +633,8 @@ def bias_flags(prog, body, rng):
         for s in b:
             if s[0] in ("e", "a"):
                 out.append((s[0], ex(s[1], ab)))
+            elif s[0] == "at":
+                out.append(("at", ex(s[1], ab), s[2]))
             elif s[0] == "i":
                 out.append(("i", ex(s[1], ab), bl(s[2]), bl(s[3])))
             elif s[0] == "w":
@@ -622,6 +676,8 @@ def strip_dagger_hostile(body):
             out.append(("e", ex(s[1])))
         elif s[0] == "a":
             out.append(("e", call(7, [ex(s[1])], "n")))
+        elif s[0] == "at":
+            out.append(("e", call(7, [B], "n")))
         elif s[0] == "i":
             out.append(("i", ex(s[1]), strip_dagger_hostile(s[2]), strip_dagger_hostile(s[3])))
         elif s[0] == "w":
@@ -681,8 +737,8 @@ def cases(ctx):
     if ctx.replay_in:
         progs.append(_norm(ctx.replay_in["replay"]["program"]))
     rng = ctx.rng
-    g = list(grid())
-    ng = list(nested_grid())
+    g = [p_ for p_ in grid() if qubits_ok(p_)]          # drops resource-impossible combinations (qs[f(qs)])
+    ng = [p_ for p_ in nested_grid() if qubits_ok(p_)]
     if ctx.quick:
         progs += rng.sample(g, 200) + rng.sample(ng, 80)
         nrand = 220
